@@ -126,7 +126,7 @@ def keep_c17(f: dict) -> bool:
     exp = f.get("expected", {})
     if exp.get("kind") in ("RuntimeError", "ValueError", "AnyError"):
         return True
-    if f["clause"] == "Outcome" and last.get("op") == "simulate" and last.get("sched") in ("S", "K", "KA"):
+    if f["clause"] == "Outcome" and last.get("op") == "simulate" and last.get("sched") in ("S", "K", "KA", "E", "O"):
         return True
     if last.get("op") == "setpf":
         return True
